@@ -433,4 +433,16 @@ theorem fixEntities_spec (s : St) (h : Inv s) :
         rw [this]; exact hsp
       · exact noTrim
 
+/-- `Complete` on ANY state satisfying the invariant returns entities inside the returned text. -/
+theorem complete_within_of_inv (s : St) (hinv : Inv s) :
+    ∀ e ∈ (complete s).2, 0 ≤ e.off ∧ 0 ≤ e.len ∧ e.off + e.len ≤ (u16len (complete s).1 : Int) := by
+  intro e he
+  obtain ⟨n, _, htext, _, hents⟩ := fixEntities_spec s hinv
+  have he' : e ∈ (fixEntities s).2 := (sortEnts_perm _).mem_iff.mp he
+  rw [hents] at he'
+  obtain ⟨e0, h0, rfl⟩ := List.mem_map.mp he'
+  have := clamp_ok (hinv.ents e0 h0) n
+  simp only [complete, htext]
+  exact this.2.2
+
 end TdModel.C35
